@@ -250,3 +250,63 @@ func rangeSourceOf(ic *IC, scope ast.Node, v types.Object) string {
 	})
 	return out
 }
+
+// cloneCopiesData: (*frame).clone gives the new frame a slot vector of its own. Every
+// assignment to the data field of the frame it returns is a fresh slice (make, or append to
+// an empty slice), and the old slots are copied into it; handing out the receiver's own
+// vector makes a closure share the variables rebound later in the defining frame (per-iteration
+// variables of a loop at interactive level, redeclared locals).
+func cloneCopiesData(ic *IC, r *Report, rule string) {
+	fi := ic.fn(r, "frame.clone")
+	if fi == nil {
+		return
+	}
+	info := ic.Info
+	dataFld := ic.field("frame", "data")
+	var bad []string
+	fresh, copied := 0, false
+	ast.Inspect(fi.Decl.Body, func(n ast.Node) bool {
+		switch x := n.(type) {
+		case *ast.AssignStmt:
+			for i, l := range x.Lhs {
+				if selField(info, l) != dataFld || i >= len(x.Rhs) {
+					continue
+				}
+				okFresh := false
+				if c, ok := unparen(x.Rhs[i]).(*ast.CallExpr); ok {
+					if id, ok := c.Fun.(*ast.Ident); ok && (id.Name == "make" || id.Name == "append") {
+						okFresh = true
+						if id.Name == "append" && len(c.Args) > 0 {
+							// append(f.data[:0:0], ...) / append([]T(nil), ...) are fresh; append(f.data, ...) is not
+							if selFieldNode(info, unparen(c.Args[0])) == dataFld {
+								okFresh = false
+							}
+						}
+					}
+				}
+				if okFresh {
+					fresh++
+				} else {
+					bad = append(bad, types.ExprString(l)+" = "+types.ExprString(x.Rhs[i])+" at "+ic.pos(x.Pos()))
+				}
+			}
+		case *ast.KeyValueExpr:
+			if id, ok := x.Key.(*ast.Ident); ok && id.Name == "data" {
+				if v, ok := info.ObjectOf(id).(*types.Var); ok && v == dataFld {
+					if c, ok := unparen(x.Value).(*ast.CallExpr); !ok || types.ExprString(c.Fun) != "make" {
+						bad = append(bad, "data: "+types.ExprString(x.Value)+" at "+ic.pos(x.Pos()))
+					} else {
+						fresh++
+					}
+				}
+			}
+		case *ast.CallExpr:
+			if id, ok := x.Fun.(*ast.Ident); ok && (id.Name == "copy" || id.Name == "append") && len(x.Args) >= 2 {
+				copied = true
+			}
+		}
+		return true
+	})
+	r.Check(len(bad) == 0 && fresh > 0 && copied, rule, "frame.clone/data-vector-copied", ic.pos(fi.Decl.Pos()), "the clone gets a fresh slot vector filled from the original",
+		fmt.Sprintf("(*frame).clone does not give the new frame a slot vector of its own on every path (fresh vectors: %d, copy of the slots: %v, shared: %s): a closure value then sees the slots of its defining frame being rebound after its creation, e.g. closures created in a loop at interactive level all see the last iteration's variable", fresh, copied, strings.Join(bad, "; ")))
+}
